@@ -203,27 +203,37 @@ func (a afterFunc) run() {
 // decision; the baseline is the most recent) or a new one, as the real pool may drop items at any time.
 type Pool struct {
 	New   func() interface{}
-	items []interface{}
+	items [poolCap]interface{} // (a fixed array and element-wise moves: append/copy are instrumented inside the Go runtime)
+	n     int
 	hb    int64
 	known bool
 }
 
+const poolCap = 64
+
 // A package-level pool outlives a simulated run, but every run stands for a fresh process:
 // pools are emptied when a run starts.
-var allPools []*Pool
+var allPools [256]*Pool
+var nPools int
 
 //go:norace
 func (p *Pool) register() {
 	if !p.known {
 		p.known = true
-		allPools = append(allPools, p)
+		if nPools < len(allPools) {
+			allPools[nPools] = p
+			nPools++
+		}
 	}
 }
 
 //go:norace
 func resetPools() {
-	for _, p := range allPools {
-		p.items = nil
+	for _, p := range allPools[:nPools] {
+		for i := 0; i < p.n; i++ {
+			p.items[i] = nil
+		}
+		p.n = 0
 	}
 }
 
@@ -248,8 +258,9 @@ func (p *Pool) Put(x interface{}) {
 	p.register()
 	Yield("pool.Put")
 	raceReleaseMerge(&p.hb)
-	if len(p.items) < 64 {
-		p.items = append(p.items, x)
+	if p.n < poolCap {
+		p.items[p.n] = x
+		p.n++
 	}
 }
 
@@ -257,7 +268,7 @@ func (p *Pool) Put(x interface{}) {
 func (p *Pool) Get() interface{} {
 	p.register()
 	Yield("pool.Get")
-	n := len(p.items)
+	n := p.n
 	if n > 0 {
 		k := 0
 		if S != nil {
@@ -267,7 +278,11 @@ func (p *Pool) Get() interface{} {
 			raceAcquire(&p.hb)
 			i := n - 1 - k
 			x := p.items[i]
-			p.items = append(p.items[:i:i], p.items[i+1:]...)
+			for j := i; j+1 < n; j++ {
+				p.items[j] = p.items[j+1]
+			}
+			p.items[n-1] = nil
+			p.n = n - 1
 			return x
 		}
 	}
